@@ -162,6 +162,24 @@ def build_traces(path, tier, seed):
         for k, T in enumerate(grid2):
             add({"kind": "series", "T": enc(T), "xi": enc(xi), "dt": enc(dt), "a": enc_seq(a), "u": enc_seq(u[k]), "v": enc_seq(v[k]), "acc": enc_seq(acc[k])},
                 {"kind": "series", "n": n, "T_over_dt": T / dt, "xi": xi, "dt": dt, "entry": "second call with another interior grid (%d)" % (j % 3), "shape": shape})
+    # one LARGE job with a leading zero period (more than 2^22 response samples: implementations may process it in blocks); the zero
+    # row, the first and the last oscillator and one in between are validated like any other series
+    if True:
+        n, nper = (4200, 1001) if tier == "quick" else (6000, 1500)
+        a, shape = gen.record(rng, n, shape="noise", amp=1.0)
+        dt = 0.01
+        xi = 0.05
+        periods = np.concatenate([[0.0], np.sort(rng.uniform(0.08, 4.0, size=nper - 1))])
+        fn = [sdof.response_series, sdof.nigam_and_jennings_response][int(rng.integers(2))]
+        u, v, acc = fn(np.array(a), dt, periods, xi)
+        for k in (0, 1, int(rng.integers(2, nper - 1)), nper - 1):
+            T = float(periods[k])
+            if T == 0.0:
+                add({"kind": "zero", "a": enc_seq(a), "u": enc_seq(u[k]), "v": enc_seq(v[k]), "acc": enc_seq(acc[k])},
+                    {"kind": "zero", "n": n, "entry": "large job (%d periods), zero row" % nper, "shape": shape})
+            else:
+                add({"kind": "series", "T": enc(T), "xi": enc(xi), "dt": enc(dt), "a": enc_seq(a), "u": enc_seq(u[k]), "v": enc_seq(v[k]), "acc": enc_seq(acc[k])},
+                    {"kind": "series", "n": n, "T_over_dt": T / dt, "xi": xi, "dt": dt, "entry": "large job (%d periods), row %d" % (nper, k), "shape": shape})
     # the series handed out belong to the caller: whatever the caller does to them (here: overwritten in place), the next call
     # on the same object / with the same arguments returns the exact solution again
     import eqsig
